@@ -58,7 +58,7 @@ def plan(tier):
         p += [(k, FAMILY[k], n, None) for k in ("verif_u6", "verif_u6_sub_div_pow") for n in range(1, 5)]
         # Context[Trigger] trees of RewriteCtx.tla (4..8 nodes): chains of unary operators at every position of a small context
         p += [("verif_logs", LOGS, "ctx", 5000), ("keep_duplicates", S["keep_duplicates"], "ctx", 4000)]
-        p += [("ext_maths", S["ext_maths"], "tower", None), ("verif_u6", FAMILY["verif_u6"], "tower", 4000)]
+        p += [("ext_maths", S["ext_maths"], "tower", 6000), ("verif_u6", FAMILY["verif_u6"], "tower", 4000), ("base10_maths", S["base10_maths"], "tower4", None)]
     else:
         p += [(k, S[k], n, None) for k in S for n in range(1, 7)]
         p += [(k, U[k], n, None) for k in U for n in range(1, 6)]
@@ -75,10 +75,10 @@ def plan(tier):
 
 def _enumerate(job):
     name, basis, n, sample = job
-    if n in ("ctx", "tower"):
+    if n in ("ctx", "tower", "tower4"):
         # ctx: chains of <= 3 unary operators in all nine contexts; tower: bare chains of <= 5 (net powers such as 12, 16, 1/18 over exp / log)
         res = tlc.must(tlc.run("RewriteCtx", "RewriteCtx.cfg", constants={"B1": bases.tla_seq(basis[1]), "B2": bases.tla_seq(basis[2]),
-                                                                          "ChainMax": "3" if n == "ctx" else "5", "KindSet": "1..9" if n == "ctx" else "{1}"},
+                                                                          "ChainMax": {"ctx": "3", "tower": "5", "tower4": "4"}[n], "KindSet": "1..9" if n == "ctx" else "{1, 10}"},
                                workers=4, heap="8g"), "RewriteCtx %s %s" % (name, n))
     else:
         res = tlc.must(tlc.run("Trees", "Trees_label.cfg", constants=bases.tla_consts(basis, n), workers=1, heap="4g"),
